@@ -207,58 +207,69 @@ example :
     r.2 = [[], [c1, c2], []] ∧ r.1.rest = [] ∧ r.1.pending = [] := by decide
 
 /-! ## Prepending comments to an already built node
-(`mod_associated_comments_with_additional_preceding_comments`, source_parser.rs:2181-2197)
+(`mod_associated_comments_with_additional_preceding_comments`, source_parser.rs:2181-2196)
 
-Full-strength statement (what the callers at source_parser.rs:677-690 and 1813-1826 rely on):
+History: on the original code the statement below was false — `prepend_conserves_counterexample`
+(empty store, reference 0, one extra comment: the comment became unreachable) and
+`prepend_conserves_partial` (side condition `old ≠ []`) stood here; finding C09-F1, fixed by /repo
+commit 5884ffb. The model follows the fixed code and the full-strength statement is proved. -/
 
-    theorem prepend_conserves (st : Store) (r : Nat) (extra : List Comment) (old : List Comment)
-        (h : get st r = some old) :
-        ∃ st' r', prepend st r extra = some (st', r') ∧ get st' r' = some (extra ++ old)
+/-- Store invariant: entry 0 is `NoComment` (`CommentStore::default`, never overwritten). -/
+def WF (st : Store) : Prop := st[0]? = some []
 
-It is **false** for the code as it stands: when the node had no comments of its own the helper
-creates a new store entry and then returns the old (empty) reference, so the additional comments
-become unreachable (known finding C09-F1). -/
+theorem wf_empty : WF emptyStore := rfl
 
-theorem prepend_conserves_counterexample :
-    ¬ ∀ (st : Store) (r : Nat) (extra old : List Comment), get st r = some old →
-        ∃ st' r', prepend st r extra = some (st', r') ∧ get st' r' = some (extra ++ old) := by
-  intro h
-  obtain ⟨st', r', h1, h2⟩ := h emptyStore 0 [⟨.block, ['c']⟩] [] rfl
-  simp [prepend, emptyStore, createRef] at h1
-  obtain ⟨rfl, rfl⟩ := h1
-  simp [get] at h2
+theorem createRef_wf (st : Store) (cs : List Comment) (h : WF st) : WF (createRef st cs).1 := by
+  unfold createRef WF at *
+  split
+  · exact h
+  · have hlt : 0 < st.length := (List.getElem?_eq_some_iff.mp h).1
+    simp only
+    rw [List.getElem?_append_left hlt]
+    exact h
 
-/-- What does hold: a node that already has comments gets the additional ones in front, in order;
-nothing else in the store changes. -/
-theorem prepend_conserves_partial (st : Store) (r : Nat) (extra old : List Comment)
-    (h : get st r = some old) (hne : old ≠ []) :
-    ∃ st', prepend st r extra = some (st', r) ∧ get st' r = some (extra ++ old) ∧
-      st'.length = st.length ∧ ∀ j, j ≠ r → get st' j = get st j := by
+/-- `create_comment_reference` returns a reference that reads back exactly the given comments. -/
+theorem createRef_get (st : Store) (cs : List Comment) (h : WF st) :
+    get (createRef st cs).1 (createRef st cs).2 = some cs := by
+  unfold createRef get
+  split
+  · rename_i he
+    have : cs = [] := by simpa using he
+    subst this
+    exact h
+  · simp
+
+/-- **Prepending conserves comments** (full strength): the returned reference reads back the
+additional comments followed by the node's own, every other live reference is unchanged, and the
+store invariant is kept. -/
+theorem prepend_conserves (st : Store) (hwf : WF st) (r : Nat) (extra old : List Comment)
+    (h : get st r = some old) :
+    ∃ st' r', prepend st r extra = some (st', r') ∧ get st' r' = some (extra ++ old) ∧ WF st' ∧
+      ∀ j, j < st.length → (old ≠ [] → j ≠ r) → get st' j = get st j := by
   unfold get at h
   cases old with
-  | nil => exact absurd rfl hne
-  | cons e es =>
-    refine ⟨st.set r (extra ++ e :: es), ?_, ?_, ?_, ?_⟩
-    · simp [prepend, h]
-    · have hlt : r < st.length := (List.getElem?_eq_some_iff.mp h).1
-      simp [get, hlt]
-    · simp
-    · intro j hj
-      simp only [get]
-      rw [List.getElem?_set_ne (Ne.symm hj)]
-
-example : get (emptyStore ++ [[⟨.line, ['a']⟩]]) 1 = some [⟨.line, ['a']⟩] ∧
-    ([⟨.line, ['a']⟩] : List Comment) ≠ [] := by decide
-
-/-- And with an empty `extra` the helper is harmless even on a comment-less node. -/
-theorem prepend_nothing (st : Store) (r : Nat) (old : List Comment) (h : get st r = some old) :
-    ∃ st', prepend st r [] = some (st', r) ∧ get st' r = some old := by
-  unfold get at h
-  cases old with
-  | nil => exact ⟨st, by simp [prepend, h, createRef], h⟩
+  | nil =>
+    refine ⟨(createRef st extra).1, (createRef st extra).2, by simp [prepend, h], ?_,
+      createRef_wf st extra hwf, ?_⟩
+    · simpa using createRef_get st extra hwf
+    · intro j hj _
+      unfold createRef get
+      split
+      · rfl
+      · simp only; rw [List.getElem?_append_left hj]
   | cons e es =>
     have hlt : r < st.length := (List.getElem?_eq_some_iff.mp h).1
-    exact ⟨st.set r (e :: es), by simp [prepend, h], by simp [get, hlt]⟩
+    refine ⟨st.set r (extra ++ e :: es), r, by simp [prepend, h], by simp [get, hlt], ?_, ?_⟩
+    · unfold WF at *
+      by_cases hr : r = 0
+      · subst hr; rw [h] at hwf; cases hwf
+      · rw [List.getElem?_set_ne hr]; exact hwf
+    · intro j _ hj
+      simp only [get]
+      rw [List.getElem?_set_ne (Ne.symm (hj (by simp)))]
+
+example : ∃ st' r', prepend emptyStore 0 [⟨.block, ['c']⟩] = some (st', r') ∧
+    get st' r' = some [⟨.block, ['c']⟩] := ⟨_, _, rfl, rfl⟩
 
 /-
 Stretch (stated, not proved; listed under `pending` in the evidence):
